@@ -381,7 +381,7 @@ def run (mode : String) (args : List Str) (impl : String) : String × String × 
     -- `reqn`: the message has no reply subject: it is dropped before anything else happens —
     -- no handler runs and nothing whatsoever is published
     if c = str "reqn" then ("-", (if impl.isEmpty then "-" else if impl = "-" then "?ok" else "?viol:something-happened-for-a-request-without-reply-subject"), "req-noreply") else
-    if !([str "req", str "req1", str "req2", str "req3", str "reqr"].contains c) then ("bad-op", "-", "bad") else
+    if !([str "req", str "req1", str "req2", str "req3", str "req4", str "reqr"].contains c) then ("bad-op", "-", "bad") else
     match parseReq rest with
     | none => ("bad-op", "-", "bad")
     | some p =>
